@@ -83,8 +83,37 @@ func c19Addr(name string) string {
 		return hx.Ring[3].Address
 	case "fresh":
 		return hx.Ring[6].Address
+	case "ca":
+		return c19ContractAcct
+	}
+	// a name with the key separator: "<known name>_<rest>" is the account "<address of the known name>_<rest>"
+	// (a1_team -> <address of a1>_team, ca_chain -> XC1111111111111111@my_chain)
+	if i := strings.IndexByte(name, '_'); i > 0 {
+		if a := c19Addr(name[:i]); a != name[:i] {
+			return a + name[i:]
+		}
 	}
 	return name
+}
+
+// c19ContractAcct is a contract account name; with a chain name that contains the key separator
+// (ca_chain = XC1111111111111111@my_chain) it is a well-formed account name with '_' in it.
+const c19ContractAcct = "XC1111111111111111@my"
+
+// c19HasSep: the account name contains the separator the contracts build their keys with
+// (balanceOf_<account>, lock_<proposal>_<account>).
+func c19HasSep(addr string) bool { return strings.Contains(addr, "_") }
+
+// c19SepPrefixes lists the proper prefixes of an account name that end just before a separator:
+// the accounts a key built from this name could be confused with.
+func c19SepPrefixes(addr string) []string {
+	var out []string
+	for i := 0; i < len(addr); i++ {
+		if addr[i] == '_' && i > 0 {
+			out = append(out, addr[:i])
+		}
+	}
+	return out
 }
 
 // c19Op is one step of a sequence (plain data, so replay files stay readable).
@@ -272,6 +301,12 @@ type c19Machine struct {
 	props   []*c19Prop
 	tdpos   map[string]*big.Int // address -> amount locked through the $tdpos forwarder
 
+	// account universe of the sequence (generator only; the oracle reads back every stored record)
+	names    []string // pick list for initiators / receivers (an account listed twice is picked twice as often)
+	funded   []string // the genesis-funded accounts of the universe
+	unfunded []string // the others: they get their first tokens by a transfer
+	wide     bool     // the universe has accounts with the key separator in their name
+
 	// facts for labels / the non-trivial rule
 	labels       map[string]bool
 	lockedEver   map[string]bool // address had a successful lock of a positive amount
@@ -284,6 +319,7 @@ func newC19Machine() (*c19Machine, error) {
 		return nil, err
 	}
 	return &c19Machine{node: n, backing: sandbox.NewMemXModel(), bal: map[string]*c19Bal{},
+		names: c19Names, funded: c19Names[:c19Funded], unfunded: c19Names[c19Funded:],
 		tdpos: map[string]*big.Int{}, labels: map[string]bool{}, lockedEver: map[string]bool{}}, nil
 }
 
@@ -894,6 +930,14 @@ func c19Name(addr string) string {
 			return n
 		}
 	}
+	if addr == c19ContractAcct {
+		return "ca"
+	}
+	if i := strings.IndexByte(addr, '_'); i > 0 {
+		if h := c19Name(addr[:i]); h != addr[:i] {
+			return h + addr[i:]
+		}
+	}
 	return addr
 }
 
@@ -964,10 +1008,10 @@ const (
 	c19Two128 = "340282366920938463463374607431768211456"
 )
 
-// c19NamesWhere lists (in the fixed order of c19Names) the accounts whose observed record satisfies pred.
+// c19NamesWhere lists (in the fixed order of the sequence's pick list) the accounts whose observed record satisfies pred.
 func (m *c19Machine) c19NamesWhere(pred func(b *c19Bal) bool) []string {
 	var out []string
-	for _, n := range c19Names {
+	for _, n := range m.names {
 		if pred(m.bal[c19Addr(n)]) {
 			out = append(out, n)
 		}
@@ -980,7 +1024,7 @@ func c19PickBy(rt *rapid.T, m *c19Machine, pred func(b *c19Bal) bool, bias int) 
 	if pref := m.c19NamesWhere(pred); len(pref) > 0 && rapid.IntRange(0, 9).Draw(rt, "bybias") < bias {
 		return c19Pick(rt, "bypref", pref)
 	}
-	return c19Pick(rt, "by", c19Names)
+	return c19Pick(rt, "by", m.names)
 }
 
 // c19Need: votes still missing for the proposal to pass (generator bias only; the oracle never uses it).
@@ -1001,7 +1045,7 @@ func c19AvailOrd(b *c19Bal) *big.Int {
 // so the frequent alternatives come first everywhere.)
 func genC19Op(rt *rapid.T, m *c19Machine) c19Op {
 	if !m.inited && rapid.IntRange(0, 9).Draw(rt, "preinit") < 8 {
-		return c19Op{Op: "init", By: c19Pick(rt, "by", c19Names)}
+		return c19Op{Op: "init", By: c19Pick(rt, "by", m.names)}
 	}
 	supply := m.supply
 	if supply == nil {
@@ -1022,7 +1066,7 @@ func genC19Op(rt *rapid.T, m *c19Machine) c19Op {
 			break
 		}
 		best, bestAv := "", new(big.Int)
-		for _, n := range c19Names {
+		for _, n := range m.names {
 			if av := c19AvailOrd(m.bal[c19Addr(n)]); av.Cmp(bestAv) > 0 {
 				best, bestAv = n, av
 			}
@@ -1047,15 +1091,19 @@ func genC19Op(rt *rapid.T, m *c19Machine) c19Op {
 		}
 		b := m.bal[c19Addr(by)]
 		var to string
+		toFunded := 5 // of 10: a genesis-funded account; up to 7: an account that starts without tokens
+		if m.wide {
+			toFunded = 4 // the accounts with a separator in their name start without tokens
+		}
 		switch r := rapid.IntRange(0, 9).Draw(rt, "to"); {
-		case r < 5:
-			to = c19Pick(rt, "other", c19Names[:c19Funded])
+		case r < toFunded:
+			to = c19Pick(rt, "other", m.funded)
 		case r < 7:
-			to = "fresh"
+			to = c19Pick(rt, "unfunded", m.unfunded)
 		case r < 9:
 			to = by
 		default:
-			to = c19Pick(rt, "any", c19Names)
+			to = c19Pick(rt, "any", m.names)
 		}
 		type cand struct{ amt, note string }
 		cands := []cand{
@@ -1100,7 +1148,7 @@ func genC19Op(rt *rapid.T, m *c19Machine) c19Op {
 		prop, p := c19PickProp(rt, m, func(p *c19Prop) bool {
 			return p.Status == putils.ProposalStatusVoting && !p.Done && p.Votes.Sign() == 0
 		})
-		by := c19Pick(rt, "by", c19Names)
+		by := c19Pick(rt, "by", m.names)
 		if p != nil && rapid.IntRange(0, 3).Draw(rt, "asproposer") < 3 {
 			by = c19Name(p.Proposer)
 		}
@@ -1113,7 +1161,7 @@ func genC19Op(rt *rapid.T, m *c19Machine) c19Op {
 			[]string{strconv.Itoa(rapid.IntRange(2, 1500).Draw(rt, "small")), free.String(), "1", c19AddStr(free, 1)})}
 	case kind < 79: // tdpos-type unlock of something $tdpos locked before
 		var holders []string
-		for _, n := range c19Names {
+		for _, n := range m.names {
 			if out := m.tdpos[c19Addr(n)]; out != nil && out.Sign() > 0 {
 				holders = append(holders, n)
 			}
@@ -1129,13 +1177,13 @@ func genC19Op(rt *rapid.T, m *c19Machine) c19Op {
 		}
 		return c19Op{Op: "revoke", By: by, Amount: amt}
 	case kind < 83: // external Lock / UnLock
-		by := c19Pick(rt, "by", c19Names)
+		by := c19Pick(rt, "by", m.names)
 		b := m.bal[c19Addr(by)]
-		return c19Op{Op: c19Pick(rt, "direct", []string{"lock", "unlock"}), By: by, From: c19Pick(rt, "from", c19Names),
+		return c19Op{Op: c19Pick(rt, "direct", []string{"lock", "unlock"}), By: by, From: c19Pick(rt, "from", m.names),
 			Amount:   c19Pick(rt, "amount", []string{"1000", "1", "0", b.total().String()}),
 			LockType: c19Pick(rt, "lock_type", []string{c19Ordinary, c19Tdpos})}
 	case kind < 85:
-		return c19Op{Op: "init", By: c19Pick(rt, "by", c19Names)}
+		return c19Op{Op: "init", By: c19Pick(rt, "by", m.names)}
 	default:
 		return c19Op{Op: "tick"}
 	}
